@@ -119,13 +119,65 @@ def outcome_term(s):
                                             _nat_list(_ints(parts[1], ' ')), _nat_list(_ints(parts[2], ' ')))
 
 
+def scfg_term(tokens):
+    return 'mk_scfg G %s %s %s true' % ('true' if kv(tokens, 'ord', 'f') == 'r' else 'false',
+                                        strat_term(kv(tokens, 'strat', 'non')),
+                                        'true' if kv(tokens, 'int', '0') == '1' else 'false')
+
+
+def sevents_term(evs):
+    """mirrors coq/driver/runtime_driver.ml stream_event"""
+    out = []
+    for t in evs:
+        if t == 'n':
+            out.append('SNext')
+        elif t == 'i':
+            out.append('SInt')
+        elif t == 'x':
+            out.append('SDropStream')
+        elif t[0] in 'du' and t[1:].isdigit():
+            out.append('SDrop %d' % int(t[1:]))
+        else:
+            raise ValueError(t)
+    return '[' + '; '.join(out) + ']'
+
+
+def spolls_term(evs, o):
+    """the poll results the extracted model printed for the `n` events, as witem terms"""
+    out = []
+    for k, t in enumerate(evs):
+        if t != 'n':
+            continue
+        v = o['e%d' % k].split()[0]
+        if v == 'P':
+            out.append('WPending')
+        elif v == 'N':
+            out.append('WNone')
+        elif v[0] == 'Y':
+            out.append('WItem %d' % int(v[1:]))
+        elif v == 'I-':
+            out.append('WInt None')
+        elif v[0] == 'I':
+            out.append('WInt (Some %d)' % int(v[1:]))
+        else:
+            raise ValueError(v)
+    return '[' + '; '.join(out) + ']'
+
+
+S_PRELUDE = '''Definition spolls (sc : scfg) (evs : list sevent) : list witem * list tev :=
+  let '(s, rs) := fold_left (fun (a : state * list witem) e =>
+                    let '(s', r) := sstep sc (fst a) e in
+                    (s', match e with SNext => snd a ++ [r] | _ => snd a end)) evs (sinit sc, []) in
+  (rs, trace s).'''
+
+
 def _small(line):
     return all(int(x) <= MAXNUM for x in re.findall(r'\d+', line.split('|', 1)[1] if '|' in line else line))
 
 
 def generate(cases, mobs, order, kind, want=40):
     """-> (coq source, ids)"""
-    cand = []
+    cand, scand = [], []
     for cid in order:
         c = cases[cid]
         o = mobs.get(cid, {})
@@ -138,15 +190,29 @@ def generate(cases, mobs, order, kind, want=40):
                 and len(c['parts'][0].split()) <= 30:
             if not any(v.endswith(' X') for t, v in o.items() if re.match(r'^e\d+$', t)):
                 cand.append(cid)
-    if not cand:
+        elif kind == 'runtime' and c['kind'] == 'S' and 'T' in o and o.get('Z') == 'ok' \
+                and len(c['parts'][2].split()) <= 40 and len(c['parts'][0].split()) <= 30 \
+                and all(re.match(r'^(n|i|x|[du]\d+)$', t) for t in c['parts'][2].split()):
+            scand.append(cid)
+    if not cand and not scand:
         return None, []
     step = max(1, len(cand) // want)
     ids = cand[::step][:want]
+    if scand:
+        sw = max(1, want // 2)
+        ids = ids + scand[::max(1, len(scand) // sw)][:sw]
     src = ['(* generated by lib/kernel_sample.py: observations printed by the extracted model, re-proved in the kernel *)',
            'From FG Require Import Dag Builder Sched.', 'Import ListNotations.']
+    if kind == 'runtime':
+        src.append(S_PRELUDE)
     for cid in ids:
         c, o = cases[cid], mobs[cid]
-        if kind == 'builder':
+        if c['kind'] == 'S':
+            evs = c['parts'][2].split()
+            src.append('Example s_%s : match build (builder_run %s) with BOk G _ _ => spolls (%s) %s = (%s, %s) | _ => False end.\nProof. vm_compute. reflexivity. Qed.'
+                       % (cid, ops_term(c['parts'][0]), scfg_term(c['parts'][1].split()), sevents_term(evs),
+                          spolls_term(evs, o), trace_term(o['T'])))
+        elif kind == 'builder':
             src.append('Example b_%s : match build (builder_run %s) with BOk G _ _ => (fg_edges G, fg_ranks G) = (%s, %s) | _ => False end.\nProof. vm_compute. reflexivity. Qed.'
                        % (cid, ops_term(c['parts'][0]), edges_term(o.get('E', '-')), _nat_list(_ints(o.get('K', '-'), ' '))))
         else:
